@@ -5,6 +5,7 @@ import itertools
 
 from .. import units as U
 from ..loader import AnalysisError, norm_stmt
+from ..small import FoldError, fold, negation_text
 from .C04 import CONTRACTS, SEEDS, SYMBOLS, infer
 from .C16 import signed_factors, terms
 
@@ -419,7 +420,86 @@ def gamma_recurrence(ctx, rule="R03.7"):
     ctx.floor(rule, "recurrence steps analysed", total, 2)
 
 
+# ---------------------------------------------------------------------------------------- R03.11
+def _elementary_integral(e):
+    """integral over [0, inf) of an elementary correlation kernel in the lag h, or None:  exp(-(h/c)^2) -> c*sqrt(pi)/2 ;  exp(-h/c) -> c"""
+    import math as _m
+
+    if not (isinstance(e, ast.Call) and ast.unparse(e.func) in ("np.exp", "math.exp") and len(e.args) == 1 and isinstance(e.args[0], ast.UnaryOp) and isinstance(e.args[0].op, ast.USub)):
+        return None
+    x = e.args[0].operand
+
+    def is_h(b):
+        # the lag itself, possibly through the array / absolute-value conversions the methods start with (the kernels are even in h)
+        while isinstance(b, ast.Call) and ast.unparse(b.func) in ("np.asarray", "np.array", "np.abs", "abs", "np.atleast_1d") and b.args:
+            b = b.args[0]
+        return isinstance(b, ast.Name) and b.id == "h"
+
+    def scaled_h(b):
+        if is_h(b):
+            return 1.0
+        if isinstance(b, ast.BinOp) and isinstance(b.op, ast.Div) and is_h(b.left):
+            try:
+                return float(fold(b.right, {}))
+            except (FoldError, TypeError):
+                return None
+        if isinstance(b, ast.BinOp) and isinstance(b.op, ast.Mult):
+            for hh, cc in ((b.left, b.right), (b.right, b.left)):
+                if is_h(hh):
+                    try:
+                        return 1.0 / float(fold(cc, {}))
+                    except (FoldError, TypeError, ZeroDivisionError):
+                        return None
+        return None
+
+    if isinstance(x, ast.BinOp) and isinstance(x.op, ast.Pow) and isinstance(x.right, ast.Constant) and x.right.value in (2, 2.0):
+        c = scaled_h(x.left)
+        return None if c is None else ("gaussian", c * _m.sqrt(_m.pi) / 2.0)
+    c = scaled_h(x)
+    return None if c is None else ("exponential", c)
+
+
+def elementary_limits(ctx, rule="R03.11"):
+    """Where a branch of `cor` is an elementary kernel (Gaussian / exponential in h), its integral over all lags is known in closed form.
+    Every branch of calc_integral_scale that can be taken together with that branch and is a pure number times len_rescaled must be that
+    number: the integral scale reported and the curve evaluated are then the same model also in the limit cases."""
+    from ..small import UnrollError, return_cases
+
+    prog = ctx.prog
+    cm = prog.cls(BASE, "CovModel")
+    n = 0
+    for ci in prog.subclasses(cm):
+        cor, cis = ci.methods.get("cor"), ci.methods.get("calc_integral_scale")
+        if cor is None or cis is None:
+            continue
+        site = "%s::%s" % (ci.module.relpath, ci.name)
+        try:
+            ctab = return_cases(cor)
+            itab = return_cases(cis)
+        except UnrollError:
+            continue
+        for conds, txt in ctab:
+            known = _elementary_integral(ast.parse(txt, mode="eval").body)
+            if known is None:
+                continue
+            kind, want = known
+            for iconds, itxt in itab:
+                if any(negation_text(c) in conds for c in iconds):
+                    continue  # cannot be taken together
+                try:
+                    got = float(fold(ast.parse(itxt, mode="eval").body, {"self.len_rescaled": 1.0}))
+                except (FoldError, TypeError, ZeroDivisionError):
+                    ctx.ok(rule, site, "cor branch [%s] is %s; calc_integral_scale uses its general formula there (not a pure number, limit not decidable): %s" % (", ".join(sorted(conds)) or "always", kind, itxt[:60]))
+                    continue
+                n += 1
+                ctx.check(abs(got - want) <= 1e-12 * max(1.0, abs(want)), rule, site,
+                          "cor branch [%s] = %s has integral %.6g * len_rescaled; calc_integral_scale branch [%s] returns %.6g * len_rescaled"
+                          % (", ".join(sorted(conds)) or "always", txt, want, ", ".join(sorted(iconds)) or "always", got), "limit:%s" % (",".join(sorted(conds)) or "always"))
+    ctx.floor(rule, "elementary cor branches with a numeric integral scale", n, 2)
+
+
 def run(ctx):
+    elementary_limits(ctx)
     from .C14 import no_subclass_caches
 
     no_subclass_caches(ctx, rule="R03.10")
